@@ -148,6 +148,11 @@ impl Response {
                     self.headers.set().ContentLength(None);
                 }
             }
+            (Content::None, status) if self.headers.ContentLength().is_none()
+                && !matches!(status.code(), 100..=199 | 304) => {
+                /* without any declared length, the client can't know the end of this response until the connection is closed */
+                self.headers.set().ContentLength("0");
+            }
             _ => (/* let it go by user's responsibility */)
         }
     }
